@@ -81,6 +81,7 @@ var c19ReaderDocs = func() []c19Doc {
 		txt("sniff", s)
 	}
 	txt("crlf", "a\r\nb\r\n[1,\r\n2]")
+	txt("crlf-in-long-string", "'''a\r\nb\rc''' {{'''d\r\ne'''}} \"f\\\r\ng\"")
 	txt("inf", "+inf -inf nan (+inf - inf +in)")
 	txt("long-strings", "'''ab''' '''cd''' 'q' '''e'''\n''''''")
 	txt("lob", "{{ aGVsbG8= }} {{\"clob\"}} {{ '''a''' '''b''' }}")
@@ -240,11 +241,12 @@ var c19Probe = []wcall{c12Alphabet[0], c12Alphabet[1], c12Alphabet[6], c12Alphab
 
 func c19Writer(c *mc.Ctx) {
 	vals := c19WriterDocs[c.Shard("doc", len(c19WriterDocs))]
-	mode := c.Pick("mode", 3)
+	mode := c.Pick("mode", len(c19Modes))
+	syms := refbin.CollectSymbols(vals)
 	// fault-free run: reference output and number of write calls
 	clean := &faultWriter{failAt: -1}
 	if failPanic(c, drive.Safe(func() {
-		w := newWriterTo(mode, clean)
+		w := newWriterTo(mode, clean, syms)
 		drive.WriteStream(w, vals, nil)
 	})) {
 		return
@@ -256,24 +258,28 @@ func c19Writer(c *mc.Ctx) {
 	}
 	failAt := c.Pick("fail-at", total)
 	partial := c.Pick("partial", 2) == 1
+	probeFirst := c.Pick("first-probe", len(c19Probe))
 	c.Case(func() string {
-		return fmt.Sprintf("writer mode=%s values=%s fail at write call %d of %d partial=%v", modeNames[mode], rm.StreamString(vals), failAt, total, partial)
+		return fmt.Sprintf("writer mode=%s values=%s fail at write call %d of %d partial=%v then %s", c19Modes[mode], rm.StreamString(vals), failAt, total, partial, c19Probe[probeFirst].name)
 	})
-	c.Class("writer/" + modeNames[mode])
+	c.Class("writer/" + c19Modes[mode])
 	fw := &faultWriter{failAt: failAt, partial: partial}
 	var names []string
 	var errs []error
 	var probeNames []string
 	var probeErrs []error
 	pan := drive.Safe(func() {
-		w := newWriterTo(mode, fw)
+		w := newWriterTo(mode, fw, syms)
 		o := &drive.WriteOpts{OnCall: func(name string, err error) { names = append(names, name); errs = append(errs, err) }}
 		// keep going after errors: the property is about every later call
 		for _, v := range vals {
 			writeAll(w, v, o)
 		}
 		o.OnCall("Finish", w.Finish())
-		for _, p := range c19Probe {
+		// every probe gets to be the first call after the failed stream (a probe that itself writes
+		// would otherwise re-discover the failure on behalf of the ones after it)
+		for i := range c19Probe {
+			p := c19Probe[(probeFirst+i)%len(c19Probe)]
 			probeNames = append(probeNames, p.name)
 			probeErrs = append(probeErrs, p.do(w))
 		}
@@ -290,23 +296,23 @@ func c19Writer(c *mc.Ctx) {
 		}
 	}
 	if first < 0 {
-		c.Fail("missing-error", modeNames[mode]+":swallowed", "write call %d of %d failed but every Writer call including Finish returned nil", failAt, total)
+		c.Fail("missing-error", c19Modes[mode]+":swallowed", "write call %d of %d failed but every Writer call including Finish returned nil", failAt, total)
 		return
 	}
 	for i := first + 1; i < len(errs); i++ {
 		if errs[i] == nil {
-			c.Fail("not-sticky", modeNames[mode]+":"+names[first]+"->"+names[i], "call #%d %s reported the failure but later call #%d %s returned nil", first, names[first], i, names[i])
+			c.Fail("not-sticky", c19Modes[mode]+":"+names[first]+"->"+names[i], "call #%d %s reported the failure but later call #%d %s returned nil", first, names[first], i, names[i])
 			return
 		}
 	}
 	for i, e := range probeErrs {
 		if e == nil {
-			c.Fail("not-sticky", modeNames[mode]+":after-Finish->"+probeNames[i], "after the failed stream, %s returned nil", probeNames[i])
+			c.Fail("not-sticky", c19Modes[mode]+":after-Finish->"+probeNames[i], "after the failed stream, %s returned nil", probeNames[i])
 			return
 		}
 	}
 	if !bytes.HasPrefix(clean.buf.Bytes(), fw.buf.Bytes()) {
-		c.Fail("invalid-output", modeNames[mode]+":not-a-prefix", "accepted bytes %q are not a prefix of the fault-free output %q", clipBytes(fw.buf.Bytes(), 80), clipBytes(clean.buf.Bytes(), 80))
+		c.Fail("invalid-output", c19Modes[mode]+":not-a-prefix", "accepted bytes %q are not a prefix of the fault-free output %q", clipBytes(fw.buf.Bytes(), 80), clipBytes(clean.buf.Bytes(), 80))
 		return
 	}
 	c.Observe(first, len(errs), failAt, partial, fmt.Sprintf("%x", clipBytes(fw.buf.Bytes(), 32)))
@@ -349,12 +355,19 @@ func writeAll(w ion.Writer, v *rm.Value, o *drive.WriteOpts) {
 	drive.WriteValue(w, v, o)
 }
 
-func newWriterTo(mode int, out io.Writer) ion.Writer {
+var c19Modes = []string{"text", "pretty", "binary", "text-quiet", "binary-fixed-table"}
+
+func newWriterTo(mode int, out io.Writer, syms []string) ion.Writer {
 	switch mode {
 	case 0:
 		return ion.NewTextWriter(out)
 	case 1:
 		return ion.NewTextWriterOpts(out, ion.TextWriterPretty)
+	case 3:
+		return ion.NewTextWriterOpts(out, ion.TextWriterQuietFinish)
+	case 4:
+		// a table that already holds every symbol of the document, written lazily before the first value
+		return ion.NewBinaryWriterLST(out, ion.NewLocalSymbolTable(nil, syms))
 	}
 	return ion.NewBinaryWriter(out)
 }
